@@ -13,7 +13,6 @@ import (
 	"time"
 
 	"github.com/massnetorg/mass-core/blockchain"
-	coreconfig "github.com/massnetorg/mass-core/config"
 	"github.com/massnetorg/mass-core/database"
 	cldb "github.com/massnetorg/mass-core/database/ldb"
 	"github.com/massnetorg/mass-core/massutil"
@@ -353,20 +352,26 @@ func (s *Server) Blockchain() *blockchain.Blockchain {
 	return bc
 }
 
+// sharedSM is one process-wide vault-mode sync manager (no sockets, no peers, so
+// BestPeer() == nil for every wallet instance); building one per node would only leak.
+var sharedSM *netsync.SyncManager
+
 func (s *Server) SyncManager() *netsync.SyncManager {
-	n := s.N
-	if n.sm == nil {
-		cfg := coreconfig.Config{}
+	if sharedSM == nil {
+		n := s.N
 		cc := config.NewDefCoreConfig()
-		cfg = *cc
+		cfg := *cc
 		cfg.P2P.VaultMode = true
-		cfg.Datastore.Dir = filepath.Join(n.Dir, "p2p")
+		cfg.Datastore.Dir = filepath.Join(filepath.Dir(n.Dir), "shared-p2p")
+		if err := os.MkdirAll(cfg.Datastore.Dir, 0o755); err != nil {
+			panic(fmt.Sprintf("HARNESS-ERROR p2p dir: %v", err))
+		}
 		bc := s.Blockchain()
 		sm, err := netsync.NewSyncManager(&cfg, bc, bc.GetTxPool(), make(chan *wire.Hash, 16))
 		if err != nil {
 			panic(fmt.Sprintf("HARNESS-ERROR NewSyncManager: %v", err))
 		}
-		n.sm = sm
+		sharedSM = sm
 	}
-	return n.sm
+	return sharedSM
 }
